@@ -38,7 +38,7 @@ item      : expr | expr NAME | expr AS NAME
 objname   : NAME | NAME . NAME | QNAME | QNAME . QNAME | NAME . QNAME
 cond      : expr CMP expr | expr LIKE expr | cond AND cond | cond OR cond | NOT cond | expr BETWEEN atom AND atom | expr IN ( items ) | ( cond ) | expr IS NULL
 expr      : atom | expr OP atom | expr STAR atom
-atom      : objname | NUM | STR | STAR | ( expr ) | NAME ( ) | NAME ( items ) | atom :: TYPE | DATE STR | TIMESTAMP STR | INTERVAL STR unit | anyparen
+atom      : objname | NUM | STR | STAR | ( expr ) | NAME ( ) | NAME ( items ) | IF( items ) | atom :: TYPE | DATE STR | TIMESTAMP STR | INTERVAL STR unit | anyparen
 unit      : DAY | HOUR | MINUTE | MONTH | SECOND | YEAR
 anyparen  : ( junk )
 junk      : | junk ; | junk NAME | junk , | junk STR | junk NUM | junk OP | junk anyparen
@@ -80,7 +80,7 @@ update    : UPDATE objname SET assigns whereopt
 assigns   : assign | assigns , assign
 assign    : NAME CMP expr
 delete    : DELETE FROM objname whereopt
-ddl       : CREATE TABLE objname ( coldefs ) | CREATE VIEW objname AS query | CREATE_OR_REPLACE VIEW objname AS query | CREATE INDEX NAME ON objname ( items ) | DROP TABLE objname | DROP VIEW objname | ALTER TABLE objname ADD coldef
+ddl       : CREATE TABLE objname ( coldefs ) | CREATE TABLE IF NOT EXISTS objname ( coldefs ) | CREATE INDEX IF NOT EXISTS NAME ON objname ( items ) | DROP TABLE IF EXISTS objname | DROP VIEW IF EXISTS objname | CREATE VIEW objname AS query | CREATE_OR_REPLACE VIEW objname AS query | CREATE INDEX NAME ON objname ( items ) | DROP TABLE objname | DROP VIEW objname | ALTER TABLE objname ADD coldef
 coldefs   : coldef | coldefs , coldef
 coldef    : NAME TYPE | NAME TYPE ( NUM ) | NAME TYPE NOT_NULL | NAME TYPE PRIMARY_KEY
 '''
@@ -194,7 +194,13 @@ def terminal_tokens(spelling):
 # ------------------------------------------------------------------------------------------- production checker
 
 ESTABLISHES_CREATE = {'prochdr'}
-FIELDS = ('_in_declare', '_in_case', '_is_create', '_begin_depth', 'level', 'consume_ws', '_in_loop_header')
+FIELDS = ('_in_declare', '_in_case', '_is_create', '_begin_depth', 'level', 'consume_ws', '_in_loop_header', '_in_ddl')
+# _in_ddl ("inside a DDL statement of a body": its IF [NOT] EXISTS is not a block opener) is set by a DDL keyword inside a
+# body and cleared by the ';' that ends the statement.  Non-terminals that can derive a DDL statement may leave it in any
+# state; non-terminals whose productions all end with ';' leave it cleared; every other non-terminal never sets it (a ';'
+# inside parentheses may clear it).
+MAY_SET_DDL = {'ddl', 'stmt', 'pstmt'}
+SEMI_ENDING = {'pstmts', 'decls'}
 
 
 class ProductionChecker:
@@ -244,24 +250,25 @@ class ProductionChecker:
         nocase = zz('_in_case') == 0 if z3.is_int(zz('_in_case')) else z3.Not(zz('_in_case'))
         anycase = zz('_in_case') >= 0 if z3.is_int(zz('_in_case')) else z3.BoolVal(True)
         hdr = zz('_in_loop_header') if '_in_loop_header' in o else z3.BoolVal(False)
+        ddl = zz('_in_ddl') if '_in_ddl' in o else z3.BoolVal(False)
         cs = [z3.Not(zz('consume_ws'))]
         if fam in ('TOP', 'TOPP'):
             # (_in_case == 0 follows from INV: _in_case > 0 => _begin_depth >= 1)
             cs += [zz('_begin_depth') == 0, z3.Not(zz('_in_declare')), zz('level') >= (1 if fam == 'TOPP' else 0),
-                   nocase]
+                   nocase, z3.Not(ddl)]
         elif fam == 'PROC0':
             cs += [zz('_is_create'), zz('_begin_depth') == 0, z3.Not(zz('_in_declare')), nocase, zz('level') >= 0,
-                   z3.Not(hdr)]
+                   z3.Not(hdr), z3.Not(ddl)]
         elif fam == 'DECL':
-            cs += [zz('_is_create'), zz('_begin_depth') == 0, zz('_in_declare'), zz('level') >= 1, nocase]
+            cs += [zz('_is_create'), zz('_begin_depth') == 0, zz('_in_declare'), zz('level') >= 1, nocase, z3.Not(ddl)]
         elif fam == 'XB':       # expression / plain statement inside a procedural body
             cs += [zz('_is_create'), zz('_begin_depth') >= 1, z3.Not(zz('_in_declare')), zz('level') >= 1, anycase]
         elif fam == 'BODY':     # procedural statement level inside a body
             cs += [zz('_is_create'), zz('_begin_depth') >= 1, z3.Not(zz('_in_declare')), zz('level') >= 1, nocase,
-                   z3.Not(hdr)]
+                   z3.Not(hdr), z3.Not(ddl)]
         elif fam == 'RESET':
             cs += [zz('_begin_depth') == 0, z3.Not(zz('_in_declare')), zz('level') == 0, nocase,
-                   z3.Not(zz('_is_create')), z3.Not(hdr)]
+                   z3.Not(zz('_is_create')), z3.Not(hdr), z3.Not(ddl)]
         elif fam == 'AFTER_TERMINATOR':
             cs = [zz('consume_ws'), zz('_begin_depth') >= 0, anycase]
         else:
@@ -350,6 +357,17 @@ class ProductionChecker:
                         s.assume(z3.Implies(old_c, new_c))
                         if sym in ESTABLISHES_CREATE:
                             s.assume(new_c)
+                        if '_in_ddl' in s.objs[me.oid]:
+                            old_d = self.field_z(s, me, '_in_ddl')
+                            if sym in SEMI_ENDING:
+                                s.objs[me.oid]['_in_ddl'] = SBool(z3.BoolVal(False))
+                            elif sym in MAY_SET_DDL:
+                                s.objs[me.oid]['_in_ddl'] = SBool(fresh('in_ddl_after_' + sym, z3.BoolSort()))
+                            else:
+                                # never set; a ';' inside parentheses (junk) may clear it
+                                new_d = fresh('in_ddl_after_' + sym, z3.BoolSort())
+                                s.objs[me.oid]['_in_ddl'] = SBool(new_d)
+                                s.assume(z3.Implies(new_d, old_d))
                     continue
                 for tt, val in self.symbols_tokens(sym, ex, states):
                     states = self.step(ex, states, me, tt, val, events)
@@ -372,6 +390,14 @@ class ProductionChecker:
                                           z3.Implies(entry[n], self.field_z(s, me, n))))
                             if lhs in ESTABLISHES_CREATE:
                                 goals.append(('_is_create established', list(s.pc), self.field_z(s, me, n)))
+                            continue
+                        if n == '_in_ddl' and lhs in SEMI_ENDING:
+                            goals.append(('_in_ddl cleared by the final ;', list(s.pc), z3.Not(self.field_z(s, me, n))))
+                            continue
+                        if n == '_in_ddl' and lhs in MAY_SET_DDL:
+                            continue
+                        if n == '_in_ddl':
+                            goals.append(('_in_ddl never set here', list(s.pc), z3.Implies(self.field_z(s, me, n), entry[n])))
                             continue
                         goals.append(('%s unchanged' % n, list(s.pc), self.field_z(s, me, n) == entry[n]))
                 elif mode == 'terminated':
